@@ -29,6 +29,8 @@ func runC01(c *Ctx, r *Report) {
 	r.Doc("R-C01.5", "ordered-map copies and merges do not alias or mutate their sources")
 	r.Doc("R-C01.7", "a reopened replica orders with the comparator it was configured with (replicas with the same entries and different comparators do not converge)")
 	optionForwarding(c, r, "R-C01.7", append(constructorLoaderSpecs(), constructorLogSpecs()...), "SortFn")
+	r.Doc("R-C01.8", "no element of a list that decides heads or order is skipped: a slice is not shortened in place inside the index loop that walks it unless the index steps back")
+	removalWhileIterating(c, r, "R-C01.8")
 	join := p.FuncI("", "IPFSLog", "Join")
 
 	// ---- R-C01.1
@@ -328,4 +330,107 @@ func mergedHeadsDeps(c *Ctx, r *Report, rule string, join *Fn) {
 		}
 	}
 
+}
+
+// removalWhileIterating: in the merge/linearisation closure, `x = append(x[:i], x[i+1:]...)` inside a loop that
+// walks x by index i skips the element that slides into position i — unless i is decremented on that path.
+func removalWhileIterating(c *Ctx, r *Report, rule string) {
+	p := c.P
+	var roots []*Fn
+	for _, t := range []struct{ pkg, recv, name string }{{"", "IPFSLog", "Join"}, {"", "IPFSLog", "Append"}, {"", "IPFSLog", "traverse"}, {"entry", "", "FindHeads"}, {"", "", "difference"}, {"", "IPFSLog", "Heads"}} {
+		roots = append(roots, p.FuncI(t.pkg, t.recv, t.name))
+	}
+	nloops, nbad := 0, 0
+	for fn := range c.CG.Reach(roots, false) {
+		if !p.firstParty(fn.Pkg.Types) {
+			continue
+		}
+		walkNoLit(fn.Body, func(n ast.Node) bool {
+			var body *ast.BlockStmt
+			var idx, coll types.Object
+			switch x := n.(type) {
+			case *ast.ForStmt:
+				be, ok := x.Cond.(*ast.BinaryExpr)
+				if !ok || (be.Op != token.LSS && be.Op != token.NEQ) {
+					return true
+				}
+				iid, ok := ast.Unparen(be.X).(*ast.Ident)
+				if !ok {
+					return true
+				}
+				call, ok := ast.Unparen(be.Y).(*ast.CallExpr)
+				if !ok || p.Builtin(fn, call) != "len" || len(call.Args) != 1 {
+					return true
+				}
+				cid, ok := ast.Unparen(call.Args[0]).(*ast.Ident)
+				if !ok {
+					return true
+				}
+				body, idx, coll = x.Body, p.ObjOf(fn, iid), p.ObjOf(fn, cid)
+			case *ast.RangeStmt:
+				kid, ok := x.Key.(*ast.Ident)
+				cid, ok2 := ast.Unparen(x.X).(*ast.Ident)
+				if !ok || !ok2 || kid.Name == "_" {
+					return true
+				}
+				if _, isSlice := p.TypeOf(fn, cid).Underlying().(*types.Slice); !isSlice {
+					return true
+				}
+				body, idx, coll = x.Body, p.ObjOf(fn, kid), p.ObjOf(fn, cid)
+			default:
+				return true
+			}
+			if body == nil || idx == nil || coll == nil {
+				return true
+			}
+			nloops++
+			walkNoLit(body, func(m ast.Node) bool {
+				as, ok := m.(*ast.AssignStmt)
+				if !ok || len(as.Lhs) != 1 || len(as.Rhs) != 1 {
+					return true
+				}
+				lid, ok := ast.Unparen(as.Lhs[0]).(*ast.Ident)
+				if !ok || p.ObjOf(fn, lid) != coll {
+					return true
+				}
+				call, ok := ast.Unparen(as.Rhs[0]).(*ast.CallExpr)
+				if !ok || p.Builtin(fn, call) != "append" || len(call.Args) < 2 {
+					return true
+				}
+				se, ok := ast.Unparen(call.Args[0]).(*ast.SliceExpr)
+				if !ok {
+					return true
+				}
+				if sid, ok := ast.Unparen(se.X).(*ast.Ident); !ok || p.ObjOf(fn, sid) != coll {
+					return true
+				}
+				// the index steps back in the same block?
+				stepped := false
+				if blk, ok := p.parent[as].(*ast.BlockStmt); ok {
+					for _, st := range blk.List {
+						if ids, ok := st.(*ast.IncDecStmt); ok && ids.Tok == token.DEC {
+							if id, ok := ast.Unparen(ids.X).(*ast.Ident); ok && p.ObjOf(fn, id) == idx {
+								stepped = true
+							}
+						}
+						if as2, ok := st.(*ast.AssignStmt); ok && as2.Tok == token.SUB_ASSIGN && len(as2.Lhs) == 1 {
+							if id, ok := ast.Unparen(as2.Lhs[0]).(*ast.Ident); ok && p.ObjOf(fn, id) == idx {
+								stepped = true
+							}
+						}
+					}
+				}
+				if !stepped {
+					nbad++
+					r.Violate(rule, r.Key(rule, fn, "removal-while-iterating", coll.Name()), as.Pos(), "the slice "+coll.Name()+" is shortened in place inside the loop that walks it by index "+idx.Name()+" and the index is not stepped back: the element that slides into the freed position is never examined (two adjacent candidates that must both be dropped leave the second one in — a stale head that repeating the merge does not repair)")
+				}
+				return true
+			})
+			return true
+		})
+	}
+	if nbad == 0 {
+		r.Hold(rule, r.Key(rule, nil, "no-removal-while-iterating", ""), token.NoPos, true, fmt.Sprintf("%d index/range loops over slices in the merge closure, none shortens the slice it walks", nloops))
+	}
+	r.Floor(rule, "index/range loops over slices in the merge closure", nloops, 3)
 }
